@@ -85,6 +85,15 @@ func stThread(st store.Store, name string, txns []stTxn) {
 			rt = st.Read(t.id)
 		}
 		vsched.Emit(Mon, fmt.Sprintf("txn-open %s id=%s write=%v", tag, t.id, t.write))
+		// state the caller touches only inside transactions on this id needs no further synchronisation (C16):
+		// a plain word per id, written in write transactions and read in read transactions
+		if p := stScratch[t.id]; p != nil {
+			if t.write {
+				*p++
+			} else {
+				_ = *p
+			}
+		}
 		for oi, op := range t.ops {
 			otag := fmt.Sprintf("%s.%d", tag, oi)
 			vsched.Emit(Mon, fmt.Sprintf("call %s id=%s op=%s", otag, t.id, op))
@@ -112,6 +121,8 @@ func stThread(st store.Store, name string, txns []stTxn) {
 		rt.Close()
 	}
 }
+
+var stScratch = map[string]*int{"a": new(int), "b": new(int)}
 
 func newStore(kind string) store.Store {
 	cb := func(id string, before, after interface{}) {
